@@ -83,6 +83,8 @@ def _alarm(signum, frame):
         desc.append(f"{os.path.basename(f.f_code.co_filename)}:{f.f_code.co_name}:{f.f_lineno}")
         f = f.f_back
     _Hang.frame_desc = desc
+    from . import loop as _loop
+    _loop._HANG[0] = True
     raise HangDetected("wall-clock watchdog")
 
 
@@ -90,6 +92,8 @@ def execute(mod, scn: dict, run_seed: int, tape=None, log: bool = False) -> dict
     """One run.  Never raises for property violations; harness exceptions are
     classified as outcome=HARNESS_ERROR."""
     ch = Choices(seed=run_seed ^ 0x9E3779B97F4A7C15, tape=tape)
+    from . import loop as _loop
+    _loop._HANG[0] = False
     old = signal.signal(signal.SIGALRM, _alarm)
     signal.setitimer(signal.ITIMER_REAL, RUN_WALL_LIMIT)
     try:
@@ -98,7 +102,7 @@ def execute(mod, scn: dict, run_seed: int, tape=None, log: bool = False) -> dict
         res["outcome"] = "VIOLATION" if res["violations"] else "OK"
     except HangDetected:
         top = (_Hang.frame_desc or ["?"])
-        where = next((d for d in top if not d.startswith(("loop.py", "runner.py", "world.py"))), top[0])
+        where = next((d for d in top if not d.startswith(("loop.py", "runner.py", "world.py", "events.py", "base_events.py"))), top[0])
         where = where.rsplit(":", 1)[0]
         res = {
             "violations": [{"invariant": "hang", "key": f"hang@{where}",
